@@ -15,9 +15,25 @@ from ..flow import Slice, SliceItem
 from ..model import Func, unparse
 from .common import Ctx
 
-SINK_FUNCS = ("dds.fun_args.dds_hash", "dds.fun_args.dds_hash_commut", "dds.fun_args._algo_str", "dds.fun_args._algo_bytes", "dds.fun_args.HashKey")
+
+def _digest_names(ctx):
+    from .roles import digest_helper_names
+    return digest_helper_names(ctx)
+
+SINK_FUNCS = ("dds.fun_args.dds_hash", "dds.fun_args.dds_hash_commut", "dds.fun_args.HashKey")  # plus the digest helpers (roles.digest_helpers)
 ANALYSIS_MODULES = ("dds.introspect", "dds._introspect_indirect", "dds._retrieve_objects", "dds._eval_ctx", "dds._global_ctx", "dds.structures_utils",
                     "dds._lambda_funs", "dds.fun_args", "dds._api", "dds.structures")
+
+
+NON_ANALYSIS = ("dds", "dds._annotations", "dds._config", "dds.store", "dds._lru_store", "dds.codec", "dds.codecs", "dds._plotting", "dds._print_ast", "dds._version")
+
+
+def is_analysis_module(name: str) -> bool:
+    """every module of the package but the stores, codecs, options, plotting and the public facade (a new private module that receives
+    functions of the analysis is an analysis module)"""
+    if not name.startswith("dds"):
+        return False
+    return not any(name == x or (x != "dds" and name.startswith(x + ".")) for x in NON_ANALYSIS)
 
 
 class Sink:
@@ -38,21 +54,23 @@ def sinks(ctx: Ctx) -> List[Sink]:
         return memo
     out: List[Sink] = []
     prog = ctx.prog
+    from .roles import digest_helper_names
+    digest_names = digest_helper_names(ctx)
     from .c05 import family as _hasher_family
     try:
         fam = {g.qname for g in _hasher_family(ctx)}
     except Exception:
         fam = set()
     for f in prog.funcs.values():
-        if f.module.name not in ANALYSIS_MODULES:
+        if not is_analysis_module(f.module.name):
             continue
         # the value hasher digests the *content* of the value it is given (its own digest calls are not signature sinks)
-        in_hash_module = f.module.name == "dds.fun_args" and (f.qname.startswith("dds.fun_args.dds_hash") or f.name.startswith("_algo") or f.qname in fam)
+        in_hash_module = f.module.name == "dds.fun_args" and (f.qname.startswith("dds.fun_args.dds_hash") or f.qname in digest_names or f.qname in fam)
         for n in f.own_nodes():
             if not isinstance(n, ast.Call):
                 continue
             d = prog.dotted(f, n.func) or ""
-            if d in SINK_FUNCS and not in_hash_module:
+            if (d in SINK_FUNCS or d in digest_names) and not in_hash_module:
                 for a in n.args:
                     out.append(Sink(f, n, a, d.split(".")[-1]))
             elif d.endswith("FunctionInteractions"):
@@ -102,7 +120,7 @@ def exempt_sinks(ctx: Ctx) -> List[Tuple[Func, ast.Call]]:
     """the value hashed next to an `ext_dep_<name>` key: the qualified *name* of an untracked dependency is that dependency's content"""
     out = []
     for f in ctx.prog.funcs.values():
-        if f.module.name != "dds.introspect":
+        if not is_analysis_module(f.module.name):
             continue
         for n in f.own_nodes():
             if isinstance(n, ast.Tuple) and len(n.elts) == 2 and isinstance(n.elts[0], ast.Call) and isinstance(n.elts[1], ast.Call):
@@ -136,8 +154,7 @@ def _stop(ctx: Ctx, ex: set) -> Callable[[Func, ast.AST], bool]:
 
 def local_slice(ctx: Ctx, f: Func, expr: ast.AST, follow_callers: bool = False) -> Slice:
     ex = {id(c) for _, c in exempt_sinks(ctx)}
-    return ctx.slicer(follow_calls=True, follow_callers=follow_callers, max_items=8000, opaque=("dds.fun_args.dds_hash", "dds.fun_args.dds_hash_commut",
-                      "dds.fun_args._algo_str", "dds.fun_args._algo_bytes", "dds.store", "dds._lru_store", "dds.codecs", "dds.codec", "dds._plotting", "dds._print_ast",
+    return ctx.slicer(follow_calls=True, follow_callers=follow_callers, max_items=8000, opaque=("dds.fun_args.dds_hash", "dds.fun_args.dds_hash_commut") + tuple(sorted(_digest_names(ctx))) + ("dds.store", "dds._lru_store", "dds.codecs", "dds.codec", "dds._plotting", "dds._print_ast",
                       "dds._config"), stop=_stop(ctx, ex)).slice(f, expr)
 
 
